@@ -162,18 +162,36 @@ def rule_r7(chk, db):
         raise AnchorMissing("V2 create_string_to_sign not found")
     b = inline.inlined(db, cands[0])
     n = 0
-    for bi, t in b.calls():
+
+    def table_item(x, op, at):
+        """the name operand comes out of the sub-resource table: directly, or as the argument of a closure that is handed to an adaptor
+        whose receiver iterates the table (`INCLUDED_QUERY.iter().flat_map(|&q| qs.get_all(q)..)`)"""
+        sl = flow.backward(x, op, at=at)
+        if any(c.get("c") == "item" and c.get("def", "").endswith("INCLUDED_QUERY") for c in sl.consts):
+            return True
+        if x.kind == "Closure" and any(l >= 2 for l, _ in sl.params):
+            par = db.body(x.parent) if x.parent != cands[0].name else b
+            for px in ([par] if par is not None else []) + [b]:
+                for _, _, st in px.stmts():
+                    if st["rv"]["k"] == "agg" and st["rv"].get("def") == x.name and not st["dst"]["proj"]:
+                        cl = st["dst"]["l"]
+                        for bi2, t2 in px.calls():
+                            if len(t2["args"]) >= 2 and any(flow.op_place(a) is not None and flow.op_place(a)["l"] == cl for a in t2["args"][1:]):
+                                s2 = flow.backward(px, t2["args"][0], at=bi2)
+                                if any(c.get("c") == "item" and c.get("def", "").endswith("INCLUDED_QUERY") for c in s2.consts):
+                                    return True
+        return False
+    for x in [b] + [y for y in db.nested(cands[0]) if y is not cands[0]]:
+      for bi, t in x.calls():
         d = callee_def(t)
         if "ordered_qs::OrderedQs::" not in d or len(t["args"]) < 2:
             continue
-        sl = flow.backward(b, t["args"][1], at=bi)
-        from_table = any(c.get("c") == "item" and c.get("def", "").endswith("INCLUDED_QUERY") for c in sl.consts)
-        if not from_table:
+        if not table_item(x, t["args"][1], bi):
             continue
         n += 1
         sel = db.body(d)
         bad = _none_although_found(db, sel) if sel is not None else ["(selector body not found)"]
-        chk.verdict(not bad, "R7", "every-occurrence-signed:%s" % short(d), b.loc(bi),
+        chk.verdict(not bad, "R7", "every-occurrence-signed:%s" % short(d), x.loc(bi),
                     "the sub-resources of the canonicalised resource are selected with %s, which answers None for a name that occurs more than once "
                     "(%s): `?acl&acl` falls out of the string to sign while the router still sees `acl` - a request signed for GET /b/k is accepted as "
                     "GetObjectAcl" % (short(d), ", ".join(bad[:2])))
